@@ -6,6 +6,8 @@ package main
 import (
 	"fmt"
 	"math/rand"
+	"regexp"
+	"strconv"
 	"strings"
 )
 
@@ -20,6 +22,8 @@ func c05Pool() []opnd {
 		{"N", "0", "0"}, {"N", "(-0)", "-0"}, {"N", "1", "1"}, {"N", "2.5", "2.5"}, {"N", "(-3)", "-3"}, {"N", "0.1", "0.1"},
 		{"N", "7", "7"}, {"N", "num('1e300')", "1e300"}, {"N", "num('5e-324')", "5e-324"}, {"N", "num('inf')", ""}, {"N", "num('nan')", ""},
 		{"N", "9007199254740993", "9007199254740993"},
+		// spellings whose decimal value is not what another base / a shortened text would give
+		{"N", "010", "10"}, {"N", "0755", "755"}, {"N", "08", "8"}, {"N", "00.50", "0.5"},
 		{"S", "''", `""`}, {"S", "'abc'", `"abc"`}, {"S", "'10'", `"10"`}, {"S", "'9'", `"9"`}, {"S", "' 1'", `" 1"`},
 		{"S", "'1e3'", `"1e3"`}, {"S", "'0x10'", `"0x10"`}, {"S", "'0'", `"0"`}, {"S", "'-0'", `"-0"`}, {"S", "'a.c'", `"a.c"`}, {"S", "'^b'", `"^b"`}, {"S", "'('", `"("`},
 		{"S", "'2.5'", `"2.5"`}, {"S", "'Inf'", `"Inf"`}, {"S", "'1_0'", `"1_0"`},
@@ -471,7 +475,375 @@ func c05GenForms(r *rand.Rand, tier string, emit func(Case)) {
 	}
 }
 
+// ---------------------------------------------------------------- literal-spellings
+//
+// A numeric literal is a decimal digit sequence with an optional fraction; its
+// value is the decimal value of that text (strconv.ParseFloat), whatever the
+// spelling: leading zeros do not select another base, trailing fraction zeros
+// and long digit runs change nothing but the rounding ParseFloat defines.
+
+// c05Canon: the value of a literal and its canonical decimal spelling (the text
+// `print` shows for it, which is again a literal); ok=false when the literal is
+// out of range (evaluating it is a runtime error).
+func c05Canon(lit string) (float64, string, bool) {
+	v, err := strconv.ParseFloat(lit, 64)
+	if err != nil {
+		return 0, "", false
+	}
+	return v, strconv.FormatFloat(v, 'f', -1, 64), true
+}
+
+func c05Digits(r *rand.Rand, set string, n int) string {
+	b := make([]byte, n)
+	for i := range b {
+		b[i] = set[r.Intn(len(set))]
+	}
+	return string(b)
+}
+
+func c05Spellings(r *rand.Rand, tier string) []string {
+	sp := []string{
+		"010", "0017", "0100", "0755", "007", "08", "019", "00.5", "010.0", "0", "00", "000", "0.0", "00.00", "01", "07", "0777", "00010", "0010.50",
+		"017.7", "0123456789", "0377", "0644", "01000", "0200", "012", "1", "10", "8", "64", "1.50", "1.500", "2.0", "10.10", "010.010", "0.10", "0.1",
+		"00000000000000000010", "000000000000000000000000000000017", "9007199254740993", "09007199254740993", "9007199254740992.0", "18446744073709551616",
+		"9223372036854775807", "9223372036854775808", "0777777777777777777777", "01777777777777777777777", "0400000000000000000000",
+		"0.30000000000000004", "0.1000000000000000055511151231257827", "123456789012345678901234567890", "0.000000000000000000000000000001",
+		"100000000000000000000", "99999999999999999999999", "1.7976931348623157", "4.9406564584124654", "2.2250738585072011",
+		"1" + strings.Repeat("0", 308), "01" + strings.Repeat("0", 308), "2" + strings.Repeat("0", 308), "1" + strings.Repeat("0", 400),
+		"17976931348623157" + strings.Repeat("0", 292), "17976931348623159" + strings.Repeat("0", 292),
+		"0." + strings.Repeat("0", 322) + "49", "0." + strings.Repeat("0", 323) + "3", "0." + strings.Repeat("0", 400) + "1",
+		strings.Repeat("0", 200) + "8", strings.Repeat("0", 200) + "10", strings.Repeat("7", 120), "0" + strings.Repeat("7", 120),
+		"5." + strings.Repeat("0", 150), "05." + strings.Repeat("0", 150) + "1", "1.000000000000000000000000000000000000000000001",
+	}
+	for i, n := 0, tierN(tier, 70, 1500); i < n; i++ {
+		set := pick(r, []string{"01234567", "01234567", "0123456789", "01", "89", "07"})
+		var s string
+		switch r.Intn(6) {
+		case 0, 1: // leading zeros, short
+			s = strings.Repeat("0", 1+r.Intn(3)) + c05Digits(r, set, 1+r.Intn(5))
+		case 2: // no leading zero
+			s = c05Digits(r, "123456789", 1) + c05Digits(r, set, r.Intn(6))
+		case 3: // long run
+			s = strings.Repeat("0", r.Intn(3)) + c05Digits(r, set, 15+r.Intn(30))
+		case 4: // very long run
+			s = strings.Repeat("0", r.Intn(2)) + c05Digits(r, set, 40+r.Intn(270))
+		default:
+			s = strings.Repeat("0", r.Intn(4)) + c05Digits(r, set, r.Intn(4))
+			if s == "" {
+				s = "0"
+			}
+		}
+		if chance(r, 0.35) { // a fraction, often with trailing zeros
+			s += "." + c05Digits(r, set, 1+r.Intn(4)) + strings.Repeat("0", r.Intn(4))
+			if chance(r, 0.15) {
+				s += c05Digits(r, "0123456789", 10+r.Intn(40))
+			}
+		}
+		sp = append(sp, s)
+	}
+	return sp
+}
+
+func c05GenSpellings(r *rand.Rand, tier string, emit func(Case)) {
+	pool := c05Pool()
+	nt := func(i Resp) bool { return i["class"] == "ok" || i["class"] == "runtime" }
+	const funcs = "function f() { return 1 }\nfunction id(x) { return x }\n"
+	gid := 0
+	sps := c05Spellings(r, tier)
+	// direct: the program prints exactly want (class ok), or, want == nil, fails at once
+	direct := func(prog, what, lit string, want *string) {
+		emit(Case{Req: RunReq(prog, nil, nil, false), Fields: []string{"class", "out"}, NonTrivial: nt,
+			Meta: metaProg(prog, "what", what, "literal", short(lit), "row", what),
+			Oracle: func(i Resp) string {
+				if want == nil {
+					if i["class"] != "runtime" || i["out"] != "-" {
+						return fmt.Sprintf("the literal is out of float64 range (strconv.ParseFloat fails): a runtime error with no output expected, got class %s out %q", i["class"], short(string(i.Bytes("out"))))
+					}
+					return ""
+				}
+				if i["class"] != "ok" || string(i.Bytes("out")) != *want {
+					return fmt.Sprintf("a numeric literal has the decimal value of its text: expected output %q, got class %s out %q", short(*want), i["class"], short(string(i.Bytes("out"))))
+				}
+				return ""
+			}})
+	}
+	// pair: the statements with the literal as spelled and with its canonical decimal spelling agree
+	pair := func(tmpl, lit, canon, what string) {
+		gid++
+		g := fmt.Sprintf("spell%d", gid)
+		for k, l := range []string{canon, lit} {
+			prog := funcs + "BEGIN { " + strings.ReplaceAll(tmpl, "LIT", l) + " }\n"
+			side := "canonical spelling"
+			if k == 1 {
+				side = "as spelled"
+			}
+			emit(Case{Req: RunReq(prog, nil, nil, false), Fields: []string{"class", "out"}, NonTrivial: nt, Group: g, GroupFields: []string{"class", "out"},
+				Meta: metaProg(prog, "what", what, "literal", short(lit), "canonical", short(canon), "side", side, "row", strings.SplitN(what, " ", 2)[0])})
+		}
+	}
+	for _, lit := range sps {
+		v, canon, ok := c05Canon(lit)
+		if !ok {
+			direct("BEGIN { print \"pre\" + "+lit+"; print \"post\" }\n", "out-of-range", lit, nil)
+			direct("BEGIN { x = "+lit+"; print \"post\" }\n", "out-of-range", lit, nil)
+			direct("BEGIN { print 1 < "+lit+" }\n", "out-of-range", lit, nil)
+			continue
+		}
+		w := canon + "\n"
+		direct("BEGIN { print "+lit+" }\n", "print", lit, &w)
+		w2 := "n=" + canon + "," + canon + "\n"
+		direct("BEGIN { x = "+lit+"; print \"n=\" + "+lit+" + \",\" + x }\n", "concat", lit, &w2)
+		w3 := "true false false true false true true true\n"
+		direct(fmt.Sprintf("BEGIN { print %s == %s, %s != %s, %s < %s, %s <= %s, %s > %s, %s >= %s, %s == '%s', num('%s') == %s }\n",
+			lit, canon, lit, canon, lit, canon, lit, canon, canon, lit, canon, lit, lit, canon, canon, lit), "compare-with-decimal", lit, &w3)
+		w4 := "true true\n"
+		direct(fmt.Sprintf("BEGIN { x = %s; y = %s; print x == y, x - y == 0 }\n", lit, canon), "compare-with-decimal", lit, &w4)
+		if v >= 1 && v < 1e15 && v == float64(int64(v)) {
+			// % works on integer-truncated operands
+			iv := int64(v)
+			w5 := fmt.Sprintf("%d %d %d %d\n", 1000%iv, iv%7, (iv+3)%iv, -25%iv)
+			direct(fmt.Sprintf("BEGIN { print 1000 %% %s, %s %% 7, (%s + 3) %% %s, -25 %% %s }\n", lit, lit, lit, lit, lit), "percent", lit, &w5)
+		}
+		if v >= 0 && v < 24 && v == float64(int64(v)) {
+			iv := int(v)
+			w6 := fmt.Sprintf("%d %c %d\n", 100+iv, 'a'+iv, 100+(23-iv))
+			direct(fmt.Sprintf("BEGIN { a = []; for (i = 0; i < 24; i++) a.push(100 + i)\n print a[%s], 'abcdefghijklmnopqrstuvwx'[%s], a[-1 - %s] }\n", lit, lit, lit), "index", lit, &w6)
+		}
+		// every operator, the literal on either side, against pool operands and another spelling
+		for _, op := range c05BinOps {
+			for k, nB := 0, tierN(tier, 1, 3); k < nB; k++ {
+				pair("r = LIT "+op+" "+pick(r, pool).expr+"; "+c05Show, lit, canon, "left "+op)
+				pair("r = "+pick(r, pool).expr+" "+op+" LIT; "+c05Show, lit, canon, "right "+op)
+			}
+			o := pick(r, sps)
+			if _, oc, ok := c05Canon(o); ok {
+				// two spelled literals against their two canonical spellings
+				gid++
+				g := fmt.Sprintf("spell%d", gid)
+				for k, pr := range [][2]string{{canon, oc}, {lit, o}} {
+					prog := funcs + "BEGIN { r = " + pr[0] + " " + op + " " + pr[1] + "; " + c05Show + " }\n"
+					emit(Case{Req: RunReq(prog, nil, nil, false), Fields: []string{"class", "out"}, NonTrivial: nt, Group: g, GroupFields: []string{"class", "out"},
+						Meta: metaProg(prog, "what", "both "+op, "literal", short(lit), "side", []string{"canonical spelling", "as spelled"}[k], "row", "both")})
+				}
+			}
+		}
+		for _, t := range []string{
+			"r = -LIT; " + c05Show, "r = +LIT; " + c05Show, "r = !LIT; " + c05Show, "r = - -LIT; " + c05Show, "print LIT is number, LIT is string",
+			"a = [LIT, LIT + 1, [LIT]]; print a, a[0] == LIT, a.contains(LIT)", "o = {k: LIT}; o[LIT] = LIT; print o, o.k", "print id(LIT), id(LIT) + 1",
+			"print match (LIT) { LIT => 'same', _ => 'other' }, match (LIT + 1) { LIT => 'same', _ => 'other' }",
+			"x = LIT; x++; print x; x = LIT; --x; print x; x = 1; x += LIT; x *= LIT; print x", "print (LIT).floor(), (LIT).ceil(), (LIT).round(), LIT.floor()",
+			"printf('%f|%v|%8f|\\n', LIT, LIT, LIT)", "print json(LIT), num(LIT), num('LIT'), json([LIT])", "for (i = LIT; i < LIT + 2 && k < 3; i++) { k++; print i }",
+			"if (LIT) print 'T'; else print 'E'", "while (n < 2 && LIT) { n++; print n }", "print [5, 6, 7, 8, 9, 10, 11, 12][LIT % 8], 'abcdefghij'[LIT % 010]",
+			"print LIT % 8, LIT % 3, 100 % (LIT + 1), LIT / 4, 4 / (LIT + 1)", "print LIT == LIT, LIT < LIT + 1, LIT - LIT, LIT * 1 == LIT, LIT + 0 == LIT",
+			"print [3, 1, LIT, 2].sort(), [LIT].pop(), [1].push(LIT)", "print 'x' ~ LIT, '10' ~ LIT, LIT ~ '^1', LIT ~ /0$/, LIT !~ /^0/",
+		} {
+			if strings.Contains(t, "'LIT'") {
+				// num('010'): the STRING keeps its spelling; only compare the literal positions
+				t = strings.ReplaceAll(t, "'LIT'", "'"+lit+"'")
+			}
+			pair(t, lit, canon, "context "+strings.SplitN(t, "LIT", 2)[0])
+		}
+	}
+}
+
+// ---------------------------------------------------------------- match-bytes
+//
+// Right operands of ~ / !~ over raw bytes: patterns that are not valid UTF-8
+// (rejected by regexp.Compile: a runtime error), valid multi-byte text, with and
+// without metacharacters, as string literal, regex literal, variable, argument,
+// array element, document field and in a rule pattern.  The model's regex port
+// declines non-UTF-8 patterns (unmodelled); the implementation-only oracle is
+// the property text itself: Go's regexp.Compile on the very pattern decides
+// between a runtime error and the RE2 match result.
+
+var c05BadUTF8 = []string{"\xff", "\xfe", "\xc3", "\xe2\x82", "\xf0\x9f\x99", "\x80", "\xbf", "\xc0\xaf", "\xed\xa0\x80", "\xf4\x90\x80\x80", "\xf8\x88\x80\x80\x80", "\xc3\xc3\xa9"}
+var c05GoodUTF8 = []string{"é", "日本", "🙂", "ß", " ", "\xef\xbf\xbd", "ñ", "Ω"}
+var c05PlainASCII = []string{"a", "b", "abc", "caf", "x", " ", "-", "_", "0", "10", "noir", "A"}
+var c05MetaValid = []string{".", "a*", "[a-z]", "^", "$", "(b|c)", "x?", ".*", "[^a]", "é+", "[é]", "b+", "(a)", "a|b", "\\d", "\\w+"}
+var c05MetaInvalid = []string{"(", "[a", "*", "+", ")", "a{2,1}", "?"}
+
+type c05Pat struct {
+	bytes string
+	mix   string
+}
+
+func c05GenPat(r *rand.Rand) c05Pat {
+	cat := func(parts ...[]string) string {
+		var sb strings.Builder
+		idx := r.Perm(len(parts))
+		for _, i := range idx {
+			sb.WriteString(pick(r, parts[i]))
+		}
+		return sb.String()
+	}
+	switch r.Intn(10) {
+	case 0:
+		return c05Pat{pick(r, c05BadUTF8), "invalid-utf8-only"}
+	case 1, 2:
+		return c05Pat{cat(c05BadUTF8, c05PlainASCII), "invalid-utf8+plain"}
+	case 3:
+		return c05Pat{cat(c05BadUTF8, c05PlainASCII, c05GoodUTF8), "invalid-utf8+plain"}
+	case 4:
+		return c05Pat{cat(c05BadUTF8, c05MetaValid, c05PlainASCII), "invalid-utf8+meta"}
+	case 5:
+		return c05Pat{cat(c05GoodUTF8, c05PlainASCII), "valid-multibyte"}
+	case 6:
+		return c05Pat{pick(r, c05PlainASCII) + pick(r, c05GoodUTF8) + pick(r, c05MetaValid), "valid-multibyte+meta"}
+	case 7:
+		return c05Pat{pick(r, c05PlainASCII) + pick(r, c05PlainASCII), "plain"}
+	case 8:
+		return c05Pat{pick(r, c05PlainASCII) + pick(r, c05MetaValid), "plain+meta"}
+	default:
+		return c05Pat{cat(c05MetaInvalid, c05PlainASCII), "invalid-syntax"}
+	}
+}
+
+func c05GenSubject(r *rand.Rand, p c05Pat, raw bool) string {
+	parts := [][]string{c05PlainASCII, c05GoodUTF8, c05PlainASCII}
+	if raw {
+		parts = append(parts, c05BadUTF8)
+	}
+	var sb strings.Builder
+	for i, n := 0, 1+r.Intn(4); i < n; i++ {
+		sb.WriteString(pick(r, pick(r, parts)))
+		if chance(r, 0.3) && (raw || strings.ToValidUTF8(p.bytes, "") == p.bytes) {
+			sb.WriteString(p.bytes) // the pattern's own bytes occur in the subject
+		}
+	}
+	s := sb.String()
+	if !raw {
+		s = strings.ToValidUTF8(s, "")
+	}
+	return strings.NewReplacer("\\", "", "\"", "", "'", "", "\n", "").Replace(s)
+}
+
+func c05GenMatchBytes(r *rand.Rand, tier string, emit func(Case)) {
+	nt := func(i Resp) bool { return i["class"] == "ok" || i["class"] == "runtime" }
+	forms := []string{"str-lit", "regex-lit", "var-str", "var-regex", "arg", "array-loop", "doc-field", "doc-subject", "rule-pattern", "member", "concat"}
+	n := tierN(tier, 6000, 90000)
+	for i := 0; i < n; i++ {
+		form := forms[i%len(forms)]
+		op := pick(r, []string{"~", "!~"})
+		p := c05GenPat(r)
+		if form == "doc-field" {
+			for !strings.HasPrefix(p.mix, "valid") && !strings.HasPrefix(p.mix, "plain") && p.mix != "invalid-syntax" {
+				p = c05GenPat(r)
+			}
+		}
+		isRegexLit := form == "regex-lit" || form == "var-regex" || form == "rule-pattern"
+		if strings.ContainsAny(p.bytes, "\\") && !isRegexLit {
+			p.bytes = strings.ReplaceAll(p.bytes, "\\", "") // string literals would need the escape doubled; keep the text simple
+		}
+		if isRegexLit && strings.Contains(p.bytes, "/") {
+			continue
+		}
+		subj := c05GenSubject(r, p, form != "doc-subject" && form != "doc-field" && form != "rule-pattern")
+		sl := "\"" + subj + "\""
+		pl := "\"" + p.bytes + "\""
+		if isRegexLit {
+			pl = "/" + p.bytes + "/"
+		}
+		patBytes := p.bytes
+		var prog string
+		var files []File
+		one := true // exactly one evaluation of the operator between "pre" and "post"
+		switch form {
+		case "str-lit", "regex-lit":
+			prog = fmt.Sprintf("BEGIN { print \"pre\"; r = %s %s %s; print r, r is bool; print \"post\" }\n", sl, op, pl)
+		case "var-str", "var-regex":
+			prog = fmt.Sprintf("BEGIN { p = %s; q = p; s = %s; print \"pre\"; r = s %s q; print r, r is bool; print \"post\" }\n", pl, sl, op)
+		case "arg":
+			prog = fmt.Sprintf("function m(s, p) { return s %s p }\nBEGIN { print \"pre\"; r = m(%s, %s); print r, r is bool; print \"post\" }\n", op, sl, pl)
+		case "member":
+			prog = fmt.Sprintf("BEGIN { o = {p: [%s]}; print \"pre\"; r = %s %s o.p[0]; print r, r is bool; print \"post\" }\n", pl, sl, op)
+		case "concat":
+			// the pattern is assembled at run time from two halves
+			h := r.Intn(len(p.bytes) + 1)
+			prog = fmt.Sprintf("BEGIN { print \"pre\"; r = %s %s (\"%s\" + \"%s\"); print r, r is bool; print \"post\" }\n", sl, op, p.bytes[:h], p.bytes[h:])
+		case "doc-field":
+			prog = fmt.Sprintf("{ print \"pre\"; r = $.s %s $.p; print r, r is bool; print \"post\" }\n", op)
+			files = []File{{Name: "in.json", Data: []byte(fmt.Sprintf(`{"s": %s, "p": %s}`, jsonString(subj), jsonString(p.bytes)))}}
+		case "doc-subject":
+			prog = fmt.Sprintf("{ print \"pre\"; r = $.s %s %s; print r, r is bool; print \"post\" }\n", op, pl)
+			files = []File{{Name: "in.json", Data: []byte(fmt.Sprintf(`{"s": %s}`, jsonString(subj)))}}
+		case "rule-pattern":
+			prog = fmt.Sprintf("BEGIN { print \"pre\" }\n$.s %s %s { print \"true true\"; next }\n{ print \"false true\" }\nEND { print \"post\" }\n", op, pl)
+			files = []File{{Name: "in.json", Data: []byte(fmt.Sprintf(`{"s": %s}`, jsonString(subj)))}}
+		case "array-loop":
+			one = false
+		}
+		var want string
+		wantClass := "ok"
+		if one {
+			re, err := regexp.Compile(patBytes)
+			if err != nil {
+				want, wantClass = "pre\n", "runtime"
+			} else {
+				m := re.MatchString(subj)
+				if op == "!~" {
+					m = !m
+				}
+				want = fmt.Sprintf("pre\n%v true\npost\n", m)
+			}
+		} else {
+			// several patterns in turn: the run stops at the first one that does not compile
+			k := 2 + r.Intn(4)
+			pats := []c05Pat{p}
+			for len(pats) < k {
+				q := c05GenPat(r)
+				q.bytes = strings.ReplaceAll(q.bytes, "\\", "")
+				pats = append(pats, q)
+			}
+			r.Shuffle(len(pats), func(a, b int) { pats[a], pats[b] = pats[b], pats[a] })
+			var lits []string
+			want = "pre\n"
+			for _, q := range pats {
+				lits = append(lits, "\""+q.bytes+"\"")
+				if wantClass != "ok" {
+					continue
+				}
+				re, err := regexp.Compile(q.bytes)
+				if err != nil {
+					wantClass = "runtime"
+					continue
+				}
+				m := re.MatchString(subj)
+				if op == "!~" {
+					m = !m
+				}
+				want += fmt.Sprintf("%v\n", m)
+			}
+			if wantClass == "ok" {
+				want += "post\n"
+			}
+			prog = fmt.Sprintf("BEGIN { ps = [%s]; print \"pre\"; for (p in ps) print %s %s p\n print \"post\" }\n", strings.Join(lits, ", "), sl, op)
+		}
+		meta := metaProg(prog, "form", form, "pattern-mix", p.mix, "pattern", fmt.Sprintf("%q", patBytes), "subject", fmt.Sprintf("%q", subj), "row", p.mix, "col", form)
+		if files != nil {
+			meta["input"] = string(files[0].Data)
+		}
+		wc, wo := wantClass, want
+		emit(Case{Req: RunReq(prog, nil, files, false), Fields: []string{"class", "out"}, NonTrivial: nt, Meta: meta,
+			Oracle: func(i Resp) string {
+				if i["class"] != wc || string(i.Bytes("out")) != wo {
+					return fmt.Sprintf("Go's regexp.Compile / MatchString on the same pattern and subject demand class %s out %q; got class %s out %q", wc, wo, i["class"], string(i.Bytes("out")))
+				}
+				return ""
+			}})
+	}
+}
+
 func init() {
+	register(Family{
+		Name: "literal-spellings", Prop: "C05",
+		Rule: "numeric literals in unusual spellings (leading zeros over octal-looking and non-octal digits: 010 0017 0755 007 08 019; 0 00 000; fractions with leading / trailing zeros: 00.5 010.0 1.500; digit runs of 15-400 digits incl. 2^53+1, 2^63, 2^64, the float64 maximum and just beyond (out of range: runtime error), fractions that underflow) as left and right operand of all 15 binary operators against pool operands and against other spelled literals, under unary - + !, `is`, as array / string index, in %, in array / object literals, arguments, match patterns, ++ -- op=, number methods, printf / json / num, loop bounds, conditions and regex operands; oracles (implementation only): `print LIT` shows strconv.FormatFloat(strconv.ParseFloat(LIT)), the six comparisons with the decimal spelling give true false false true false true, `%` and index results computed from the decimal value, and every program with the literal as spelled agrees with the same program using the canonical decimal spelling; every program is also compared with the model",
+		Gen:  c05GenSpellings,
+	})
+	register(Family{
+		Name: "match-bytes", Prop: "C05",
+		Rule: "right operands of ~ / !~ over raw bytes (program texts carry any byte): patterns that are not valid UTF-8 (0xff, 0xfe, truncated 2/3/4-byte sequences, lone continuation bytes, overlong, surrogate, > U+10FFFF) alone, mixed with plain ASCII / valid multi-byte text (no metacharacter) and mixed with metacharacters; valid multi-byte patterns with and without metacharacters; plain text; syntactically invalid patterns; subjects with raw invalid bytes, multi-byte text and the pattern's own bytes; the pattern as string literal, regex literal, variable holding either, function argument, object/array member, run-time concatenation, element of an array looped over (run stops at the first invalid one), document field, and regex literal in a rule pattern; oracle (implementation only): Go's regexp.Compile on the very pattern decides runtime error (output so far kept, nothing after) vs the result regexp.MatchString gives; compared with the model where its regex port answers (non-UTF-8 patterns: unmodelled)",
+		Gen:  c05GenMatchBytes,
+	})
 	register(Family{
 		Name: "operand-expressions", Prop: "C05",
 		Rule: "operands that are the RESULT of a value-producing expression (about 150 forms: characters of strings by index incl. digits whose value differs from their position, out-of-range and computed indices, characters of document fields; present and missing members of arrays, objects and the document; results of every method; function results incl. none; match expressions; assignment, chained and compound assignment, prefix / postfix ++ --; regex matches; num / json; nested unary and binary operators) as left and as right operand of all 15 binary operators against random pool operands and small numbers, under unary - + ! and `is` with every type name, as a condition, under ++ -- op= where assignable, and pairs of two such expressions; oracle (implementation only, group relation): the program with the expression and the program with the literal of the same value give the same class and output; every program is also compared with the model",
